@@ -36,7 +36,8 @@ WR == Z[2]
 Ix(n)  == 0..(n + 1) \cup BigArgs
 Ixs(n) == 0..(n + 1)
 NoArg == [z |-> 0]
-Fresh == 1000                     \* values written by write ops (distinct from every root id: multiples of 3 below 200)
+Fresh == 250                      \* value written by write ops: distinct from every root id (multiples of 3 up to 243) and
+                                  \* small enough for the one-byte element type
 
 Case(rt, cs) == [fam |-> "acc", root |-> [kind |-> rkind, nc |-> NC(rt), nr |-> NR(rt), ids |-> Flat(rt)],
                  stack |-> stack, calls |-> cs]
